@@ -31,6 +31,30 @@ type Dialer = net.Dialer
 
 var ErrClosed = net.ErrClosed
 
+const (
+	IPv4len = net.IPv4len
+	IPv6len = net.IPv6len
+)
+
+var (
+	IPv4zero     = net.IPv4zero
+	IPv6zero     = net.IPv6zero
+	IPv4bcast    = net.IPv4bcast
+	IPv6loopback = net.IPv6loopback
+)
+
+type UnixAddr = net.UnixAddr
+type AddrError = net.AddrError
+type DNSError = net.DNSError
+type Interface = net.Interface
+type Flags = net.Flags
+
+func CIDRMask(ones, bits int) IPMask           { return net.CIDRMask(ones, bits) }
+func IPv4Mask(a, b, c, d byte) IPMask          { return net.IPv4Mask(a, b, c, d) }
+func LookupHost(h string) ([]string, error)    { return net.LookupHost(h) }
+func LookupIP(h string) ([]IP, error)          { return net.LookupIP(h) }
+func DialTimeout(network, address string, _ time.Duration) (Conn, error) { return Dial(network, address) }
+
 func ParseIP(s string) IP                                  { return net.ParseIP(s) }
 func ParseMAC(s string) (HardwareAddr, error)              { return net.ParseMAC(s) }
 func ParseCIDR(s string) (IP, *IPNet, error)               { return net.ParseCIDR(s) }
